@@ -175,6 +175,7 @@ func (e *Enc) encodeBody(fr *Frame, st *State, args []Val, freeVars []Val) []ret
 func (e *Enc) enterLoop(fr *Frame, li *loopInfo, pre *State) *State {
 	ec := e.evalCtx(fr, pre)
 	ec.loopPre = pre
+	ec.loopIdx = rangeIndexAlloc(li)
 	label := fmt.Sprintf("%sloop%d", fr.prefix, li.ordinal)
 	// invariants hold on entry
 	if li.spec != nil {
@@ -215,7 +216,7 @@ func (e *Enc) enterLoop(fr *Frame, li *loopInfo, pre *State) *State {
 	mod := e.loopModSet(fr, li)
 	head.reach = e.fresh("r_"+label, SBool)
 	e.fact(Implies(head.reach, pre.reach))
-	for a := range mod.cells {
+	for _, a := range sortedAllocs(mod.cells) {
 		if _, ok := pre.cells[a]; !ok {
 			continue
 		}
@@ -280,7 +281,7 @@ func (e *Enc) enterLoop(fr *Frame, li *loopInfo, pre *State) *State {
 		e.fact(Val{app("<=", pre.next.T, nn.T), SBool})
 		head.next = nn
 	}
-	for it := range mod.iters {
+	for _, it := range sortedValues(mod.iters) {
 		if old, ok := pre.iters[it]; ok {
 			head.iters[it] = e.fresh("it_lh", old.S)
 		}
@@ -291,7 +292,7 @@ func (e *Enc) enterLoop(fr *Frame, li *loopInfo, pre *State) *State {
 			head.iterN[it] = e.fresh("itn_lh", BVSort(64))
 		}
 	}
-	for a := range mod.cells {
+	for _, a := range sortedAllocs(mod.cells) {
 		if v, ok := head.cells[a]; ok {
 			e.assumeValid(head, v, a.Type().(*types.Pointer).Elem())
 		}
@@ -307,6 +308,7 @@ func (e *Enc) enterLoop(fr *Frame, li *loopInfo, pre *State) *State {
 	if li.spec != nil {
 		hc := e.evalCtx(fr, head)
 		hc.loopPre = pre
+		hc.loopIdx = rangeIndexAlloc(li)
 		for _, inv := range li.spec.Invariants {
 			c, err := hc.evalBool(inv.Expr)
 			if err != nil {
@@ -362,6 +364,22 @@ func (e *Enc) autoRangeInvariant(fr *Frame, li *loopInfo, head *State) {
 	e.assume(head, And(BVCmp("bvsge", idx, BVBigInt(64, -1)), BVCmp("bvslt", idx, lenV), BVCmp("bvsge", lenV, BV(64, 0))))
 }
 
+// rangeIndexAlloc: the hidden index cell of a `for … range slice` loop (nil for other loops).
+func rangeIndexAlloc(li *loopInfo) *ssa.Alloc {
+	if li == nil || li.head == nil || len(li.head.Instrs) == 0 {
+		return nil
+	}
+	ld, ok := li.head.Instrs[0].(*ssa.UnOp)
+	if !ok || ld.Op != token.MUL {
+		return nil
+	}
+	a, ok := ld.X.(*ssa.Alloc)
+	if !ok || a.Comment != "rangeindex" {
+		return nil
+	}
+	return a
+}
+
 func BVBigInt(n int, x int64) Val {
 	if x >= 0 {
 		return BV(n, uint64(x))
@@ -374,6 +392,7 @@ func (e *Enc) backEdge(fr *Frame, li *loopInfo, st *State, pos token.Pos) {
 	if li.spec != nil {
 		ec := e.evalCtx(fr, st)
 		ec.loopPre = li.preSt
+		ec.loopIdx = rangeIndexAlloc(li)
 		for i, inv := range li.spec.Invariants {
 			c, err := ec.evalBool(inv.Expr)
 			if err != nil {
@@ -1365,4 +1384,36 @@ func (p *Prog) writersOfKey(key string) []string {
 		return []string{"<unknown global " + key + ">"}
 	}
 	return p.writersOf(g)
+}
+
+// deterministic iteration orders (the text of the queries must not depend on map order)
+func sortedAllocs(m map[*ssa.Alloc]bool) []*ssa.Alloc {
+	var out []*ssa.Alloc
+	for a := range m {
+		out = append(out, a)
+	}
+	sort.Slice(out, func(i, j int) bool {
+		if out[i].Parent() != out[j].Parent() {
+			return out[i].Parent().String() < out[j].Parent().String()
+		}
+		if out[i].Pos() != out[j].Pos() {
+			return out[i].Pos() < out[j].Pos()
+		}
+		return out[i].Name() < out[j].Name()
+	})
+	return out
+}
+
+func sortedValues(m map[ssa.Value]bool) []ssa.Value {
+	var out []ssa.Value
+	for v := range m {
+		out = append(out, v)
+	}
+	sort.Slice(out, func(i, j int) bool {
+		if out[i].Pos() != out[j].Pos() {
+			return out[i].Pos() < out[j].Pos()
+		}
+		return out[i].Name() < out[j].Name()
+	})
+	return out
 }
